@@ -32,26 +32,31 @@ LEVEL_NOTE = (
 )
 PREIMPORT = ("pharmpy.model", "pharmpy.modeling")
 RULE = (
-    "all datasets whose individuals are record sequences over the layout's record alphabet (kind x time increment "
-    "{0,1}, reset records may also restart time) up to the length bound; single individuals are enumerated fully, "
-    "two/three-individual datasets put a fully enumerated individual behind/before individuals from a fixed context "
-    "menu, with ids in sorted and in non-sorted, non-contiguous order; a dataset is non-trivial when pharmpy "
-    "accepted it and at least one derived value was compared; state = dataset prefix, transition = append one record"
+    "all datasets whose individuals are record sequences over the layout's record alphabet (record kind x time "
+    "increment {0,1}; reset records may also restart time at 0) up to the length bound, for 12 column layouts "
+    "(AMT only, clock-time strings, +MDV, +EVID, +EVID+MDV, +CMT, +EVID+CMT, +EVID+ADMID, +ADDL/II (two alphabets), "
+    "+SS/II, +RATE); single individuals are enumerated fully; two/three-individual datasets put a fully enumerated "
+    "individual before/behind individuals from a fixed context menu, with ids in ascending and in non-sorted, "
+    "non-contiguous order; plus a family of long tied individuals and a covariate family; a dataset is non-trivial when "
+    "pharmpy accepted it and at least one derived value was compared; state = dataset prefix, transition = append one "
+    "record; every derivation (ids, observations, doses, counts, MDV, EVID, dose id, CMT, ADMID, baselines, time-varying "
+    "covariates, time after dose, expansion of additional doses, add_admid/add_cmt) is compared with the reference walk"
 )
 ASSUMPTIONS = [
     "datasets carry the default RangeIndex, the id column is named ID and ids form contiguous blocks",
+    "dose period of an observation tied with (recorded after) a dose: preceding period, except first dose and "
+    "steady-state dose (docstring + comments of get_doseid); both readings accepted for non-observation records, "
+    "several doses at one time, ties across a reset; time after dose is not compared before the first dose and "
+    "between a reset record and the next dose (only >= 0 is demanded there)",
+    "expand_additional_doses: the order of the individuals in the result is not demanded (counted only); order of "
+    "records inside an individual and chronology are",
+    "internal errors (TypeError/AttributeError/KeyError...) of a derivation on an in-scope dataset count as 'value "
+    "differs from the walk'; DatasetError/ValueError/NotImplementedError are documented refusals",
     "times are non-decreasing inside an individual except at reset records (EVID 3/4) where time may restart at 0",
     "ADDL/II layouts contain no reset records (NONMEM cancels pending additional doses at a reset; pharmpy documents nothing)",
     "in-place modification of the input model's dataset (add_admid/add_cmt) is counted as an outcome, it belongs to C06",
     "the model is a fixed generic 2-compartment model (DEPOT admid 1, CENTRAL admid 2); NONMEM code generation is not involved",
 ]
-BOUNDS = {
-    "quick": "see PLANS['quick']: single individuals up to 3-5 records per layout, pairs with an enumerated "
-             "individual of up to 2-3 records, covariate family up to 3 individuals x 3 records",
-    "thorough": "see PLANS['thorough']: single individuals up to 4-6 records per layout, pairs/triples with an "
-                "enumerated individual of up to 3-4 records",
-}
-
 TOL = 1e-7
 
 # context individuals (token sequences) per layout for the multi-individual datasets
@@ -64,37 +69,59 @@ CTX = {
 IDSETS2 = [(1, 2), (7, 3)]
 IDSETS3 = [(1, 2, 3), (5, 2, 9)]
 
-# (layout, single maxlen, pair maxlen (enumerated individual), triple maxlen, restarts)
+# pair variants: (context individual number, position of the context individual, id assignment)
+PAIRS_FULL = [(ci, where, idset) for ci in (0, 1) for where in ("after", "before") for idset in (0, 1)]
+PAIRS_LITE = [(0, "after", 0), (0, "after", 1), (0, "before", 1)]
+
+# (layout, single maxlen, pair maxlen (enumerated individual), pair variants, triple maxlen, restarts)
 PLANS = {
     "quick": [
-        ("base", 5, 3, 2, False),
-        ("clock", 3, 2, 0, False),
-        ("mdv", 4, 2, 0, False),
-        ("evid", 3, 2, 0, True),
-        ("evidmdv", 2, 2, 0, True),
-        ("cmt", 4, 2, 0, False),
-        ("evidcmt", 3, 2, 0, True),
-        ("admid", 3, 2, 0, False),
-        ("addl", 4, 3, 0, False),
-        ("addl2", 3, 0, 0, False),
-        ("ss", 4, 2, 0, False),
-        ("rate", 3, 0, 0, False),
+        ("base", 5, 3, PAIRS_FULL, 2, False),
+        ("clock", 3, 2, PAIRS_LITE, 0, False),
+        ("mdv", 3, 2, PAIRS_LITE, 0, False),
+        ("evid", 3, 2, PAIRS_LITE, 0, True),
+        ("evidmdv", 2, 1, PAIRS_LITE, 0, True),
+        ("cmt", 3, 2, PAIRS_LITE, 0, False),
+        ("evidcmt", 3, 1, PAIRS_LITE, 0, True),
+        ("admid", 3, 1, PAIRS_LITE, 0, False),
+        ("addl", 4, 2, PAIRS_FULL, 0, False),
+        ("addl2", 3, 0, PAIRS_LITE, 0, False),
+        ("ss", 4, 1, PAIRS_LITE, 0, False),
+        ("rate", 3, 0, PAIRS_LITE, 0, False),
     ],
     "thorough": [
-        ("base", 6, 4, 3, False),
-        ("clock", 4, 3, 0, False),
-        ("mdv", 5, 3, 2, False),
-        ("evid", 4, 3, 2, True),
-        ("evidmdv", 3, 2, 0, True),
-        ("cmt", 5, 3, 0, False),
-        ("evidcmt", 4, 3, 0, True),
-        ("admid", 4, 3, 0, False),
-        ("addl", 5, 4, 2, False),
-        ("addl2", 4, 3, 0, False),
-        ("ss", 5, 3, 0, False),
-        ("rate", 4, 2, 0, False),
+        ("base", 7, 4, PAIRS_FULL, 3, False),
+        ("clock", 4, 3, PAIRS_LITE, 0, False),
+        ("mdv", 5, 3, PAIRS_FULL, 2, False),
+        ("evid", 4, 3, PAIRS_LITE, 2, True),
+        ("evidmdv", 3, 2, PAIRS_LITE, 0, True),
+        ("cmt", 5, 3, PAIRS_LITE, 0, False),
+        ("evidcmt", 4, 3, PAIRS_LITE, 0, True),
+        ("admid", 4, 3, PAIRS_LITE, 0, False),
+        ("addl", 5, 4, PAIRS_FULL, 2, False),
+        ("addl2", 4, 3, PAIRS_LITE, 0, False),
+        ("ss", 5, 3, PAIRS_FULL, 0, False),
+        ("rate", 4, 2, PAIRS_LITE, 0, False),
     ],
 }
+
+
+def _bound_text(tier):
+    parts = []
+    for layout, smax, pmax, pv, tmax, restarts in PLANS[tier]:
+        t = f"{layout}[{'/'.join(R.LAYOUTS[layout][1])}]: 1 individual <= {smax} records"
+        if pmax:
+            t += f", 2 individuals ({len(pv)} context/id variants) enumerated one <= {pmax}"
+        if tmax:
+            t += f", 3 individuals enumerated one <= {tmax}"
+        parts.append(t)
+    parts.append("long: 18 datasets of one 18-record individual with ties and ADDL; covariate family: "
+                 + ("<= 3 individuals x <= 2 records and <= 2 x <= 3" if tier == "quick" else "<= 3 individuals x <= 3 records")
+                 + " over all value sequences {1,2}")
+    return "; ".join(parts)
+
+
+BOUNDS = {"quick": _bound_text("quick"), "thorough": _bound_text("thorough")}
 
 
 # ----------------------------------------------------------------------------- building
@@ -677,7 +704,7 @@ def _ctx(layout):
 
 def shards(tier):
     out = []
-    for layout, smax, pmax, tmax, restarts in PLANS[tier]:
+    for layout, smax, pmax, pvariants, tmax, restarts in PLANS[tier]:
         first = R.tokens(layout, True)
         second = R.tokens(layout, False, restarts)
         # singles: shard by the first two records (and the short ones together)
@@ -690,15 +717,14 @@ def shards(tier):
             out.append(("single", layout, restarts, smax, ()))
         # pairs: context individual before / after the enumerated one, two id assignments
         if pmax:
-            for ci, _ in enumerate(_ctx(layout)):
-                for where in ("after", "before"):
-                    for idset in range(len(IDSETS2)):
-                        for a in first:
-                            out.append(("pair", layout, restarts, pmax, (a,), ci, where, idset))
+            for ci, where, idset in pvariants:
+                for a in first:
+                    out.append(("pair", layout, restarts, pmax, (a,), ci, where, idset))
         if tmax:
             for idset in range(len(IDSETS3)):
                 for a in first:
                     out.append(("triple", layout, restarts, tmax, (a,), idset))
+    out.append(("long", "addl", False, 0, ()))
     if tier == "quick":
         out.append(("cov", 3, 2))
         out.append(("cov", 2, 3))
@@ -712,6 +738,8 @@ def shards(tier):
 def _size(s):
     if s[0] == "cov":
         return 3000
+    if s[0] == "long":
+        return 100
     kind, layout, restarts, maxlen, prefix = s[:5]
     ntok = len(R.tokens(layout, False, restarts))
     rem = maxlen - len(prefix)
@@ -729,6 +757,14 @@ def _iter_shard(shard):
         for seq in R.sequences(layout, maxlen, prefix, restarts):
             if prefix == () or len(seq) > len(prefix):  # the prefix itself belongs to the "short" shard
                 yield layout, (1,), (seq,)
+    elif kind == "long":
+        # one long individual (18 records, many tied times, one dose with additional doses): the only
+        # family in which pandas' default (unstable) sort would differ from the stable sort
+        for pos in range(6):
+            for period in (5, 6, 9):
+                seq = tuple([("O", 0)] * pos + [("DA", 0)]
+                            + [("O", 1 if j % period == 0 else 0) for j in range(18 - pos - 1)])
+                yield shard[1], (1,), (seq,)
     elif kind == "pair":
         _, layout, restarts, maxlen, prefix, ci, where, idset = shard
         ctx = _ctx(layout)[ci]
@@ -834,9 +870,9 @@ def _first_dose_tie_shape(w, recs, rows, with_values):
     # first row of the frame on which get_doseid runs: row 0, or (ADDL present: the expansion sorts by ID)
     # the first record of the individual with the smallest id
     firsts = [recs[0]]
-    if "ADDL" in recs[0]:
+    if "ADDL" in recs[0] and not with_values:  # add_time_after_dose: get_doseid sees the expanded frame
         smallest = min(r["ID"] for r in recs)
-        firsts.append(next(r for r in recs if r["ID"] == smallest))
+        firsts = [next(r for r in recs if r["ID"] == smallest)]
     exp = dict(R.ref_expand(w["layout"], recs))
     times = R.num_time(w["layout"], recs)
     for row in rows:
